@@ -162,10 +162,28 @@ def run_scenario(sc):
             if kind == "delete":
                 q["crash"] = "new" if c == "absent" else c       # for a delete, "new" = removed
             paths.append(q)
-        eq = {k2: v for k2, v in rerun_snap.items() if not k2.endswith(STG)} == {k2: v for k2, v in fin.items() if not k2.endswith(STG)}
+        want = fin2 if (sc.get("shrink") and k > 0) else fin
+        eq = {k2: v for k2, v in rerun_snap.items() if not k2.endswith(STG)} == {k2: v for k2, v in want.items() if not k2.endswith(STG)}
         return {"sid": sc["id"], "scenario": sc["name"], "dir": sc["dir"], "jobs": sc["jobs"], "k": k, "n_mut": n_mut, "exit": rcode,
-                "paths": paths, "calls": calls_of(ls), "rerun_exit": rerun_exit, "rerun_equal": eq and _snap(src) == src_pre}
+                "paths": paths, "calls": calls_of(ls), "rerun_exit": rerun_exit, "rerun_equal": eq and _snap(src) == (src_post if (sc.get("shrink") and k > 0) else src_pre)}
 
+    # "shrink": between the killed run and the re-run the source file becomes SHORTER (new bytes, new mtime); the re-run must
+    # then give what an uninterrupted run on the changed source gives - nothing of the leftover staging file in it
+    fin2, src_post = None, None
+
+    def shrink():
+        for name, c in sc["shrink"]:
+            pth = os.path.join(src, name)
+            open(pth, "wb").write(og.content_bytes(c))
+            os.utime(pth, (1_650_000_000 + c, 1_650_000_000 + c))
+    if sc.get("shrink"):
+        _restore(dst, pre)
+        shrink()
+        src_post = _snap(src)
+        _run_group(cmd, _env(home, d))
+        fin2 = _snap(dst)
+        _restore(src, src_pre)
+        _restore(dst, fin)
     recs = []
     # k = 0: uninterrupted; its "rerun" is the immediate second run
     rc2, _, _, _ = _run_group(cmd, _env(home, d))
@@ -180,8 +198,12 @@ def run_scenario(sc):
         rck, _, _, copia_pid = _run_group(cmd, _env(home, d, log=log, kill=k))
         kl = [json.loads(x) for x in open(log) if x.strip()]
         snap = _snap(dst)
+        if sc.get("shrink"):
+            shrink()
         rr, _, rerr, _ = _run_group(cmd, _env(home, d))
         recs.append(rec(k, rck, snap, kl, rr, _snap(dst)))
+        if sc.get("shrink"):
+            _restore(src, src_pre)
     shutil.rmtree(d, ignore_errors=True)
     return recs
 
@@ -189,8 +211,8 @@ def run_scenario(sc):
 def scenarios(root, tier):
     S = []
 
-    def add(name, direction, files, jobs=2, delete=False, max_k=None):
-        S.append({"id": len(S), "name": name, "dir": direction, "files": files, "jobs": jobs, "delete": delete, "root": root, "max_k": max_k})
+    def add(name, direction, files, jobs=2, delete=False, max_k=None, shrink=None):
+        S.append({"id": len(S), "name": name, "dir": direction, "files": files, "jobs": jobs, "delete": delete, "root": root, "max_k": max_k, "shrink": shrink})
     F = lambda name, new, old: {"name": name, "new": new, "old": old}
     for d in ("local", "pull", "push"):
         add(f"{d}: new small + overwrite multi-chunk + empty + untouched", d,
@@ -201,6 +223,9 @@ def scenarios(root, tier):
         add(f"{d}: mid-size file new and over an existing one", d, [F("mid", 6, 0), F("sub/mid2", 6, 3)], jobs=1, max_k=30 if tier == "quick" else None)
         # the file in flight replaces one of the SAME SIZE (the re-run's quick check has only the mtime to go by)
         add(f"{d}: multi-chunk and small file over same-size ones", d, [F("big", 5, 7), F("small", 1, 2)], jobs=1, max_k=30 if tier == "quick" else None)
+        # the source file shrinks between the killed run and the re-run (640 KiB -> 200 000 bytes -> 16 bytes)
+        add(f"{d}: source shrinks before the re-run", d, [F("big", 5, 3), F("sub/mid", 6, 0)], jobs=1, max_k=30 if tier == "quick" else None,
+            shrink=[("big", 6), ("sub/mid", 1)])
         if tier == "thorough":
             add(f"{d}: hostile names", d, [F("with space", 1, 2), F("q'uote", 3, 0), F("new\nline", 2, 1), F("sub dir/$x", 5, 0)], jobs=8)
             add(f"{d}: single empty file over existing", d, [F("e", 4, 3)], jobs=1)
